@@ -1,6 +1,7 @@
 package main
 
 import (
+	"strings"
 	"encoding/json"
 	"os"
 	"path/filepath"
@@ -42,6 +43,10 @@ func (k *KFFile) openSet() map[string]bool {
 		if f.Status == "open" {
 			m[f.ID] = true
 		}
+	}
+	// debugging aid: GOSYM_CLOSE_KF=id,id treats findings as not listed (to map exactly what fails inside a region)
+	for _, id := range strings.Split(os.Getenv("GOSYM_CLOSE_KF"), ",") {
+		delete(m, id)
 	}
 	return m
 }
